@@ -126,6 +126,12 @@ def _short(x):
     return x
 
 
+def _around(a: bytes, b: bytes) -> bytes:
+    """The part of `a` around the first octet where it differs from `b` (what a reader of the report needs to see)."""
+    i = next((j for j, (x, y) in enumerate(zip(a, b)) if x != y), min(len(a), len(b)))
+    return a[max(0, i - 20) : i + 40]
+
+
 def check_message(mw: MsgWorld, mbox: str, uid: int, raw: bytes, spec: dict | None, replay: dict, appended: bool):
     r, _ = mw.cmd(f"EXAMINE {mbox}", replay)
     if r is None or r.typ != "OK":
@@ -211,7 +217,7 @@ def check_message(mw: MsgWorld, mbox: str, uid: int, raw: bytes, spec: dict | No
                             gotv = b"" if v is None else bytes(v)
                             if gotv != want:
                                 mw.fail("C16.partial", dict(det, origin="end" if o >= m - 1 else "start", past_end=o >= m, item=item), replay,
-                                        (o, c, want[:40]), (k, gotv[:40]))
+                                        (o, c, _around(want, gotv)), (k, _around(gotv, want)))
                                 break
     # section menu: every shape is asked for sections that exist, that do not, and that make no sense for it; each command
     # is answered (OK / NO / BAD), every response is well-formed (cmd() checks the syntax and the literal counts), the
@@ -259,7 +265,7 @@ def check_message(mw: MsgWorld, mbox: str, uid: int, raw: bytes, spec: dict | No
         r2, _ = mw.cmd(f"UID FETCH {uid} (BODY.PEEK[HEADER.FIELDS ({names})] BODY.PEEK[HEADER.FIELDS.NOT ({names})])".encode("latin-1"), replay)
         if r2 is not None and r2.typ != "OK":
             mw.fail("C07.structure-fetch-refused", dict(det, names=names[:12]), replay, "OK", r2.raw[:200])
-    if r is not None and r.typ != "OK" and b"does not contain subsection" not in r.raw:
+    if r is not None and r.typ != "OK" and b"does not contain subsection" not in r.raw and b"does not exist in this message" not in r.raw:
         mw.fail("C07.structure-fetch-refused", det, replay, "OK", r.raw[:200])
     hfields, body0 = split_headers(raw)
     hd = {}
